@@ -623,14 +623,16 @@ def _setup_linear_problem(A: LinearOperator, B: torch.Tensor,
             # x: (ncols, *BX, nr, 1)
             ATx = A.rmm(x)
             MTx = M.rmm(x) if M is not None else x
-            MTxE = MTx * E_new
+            MTxE = MTx * E_new.conj()
             return ATx - MTxE
 
         col_swapped = True
 
     # estimate if it's posdef with power iteration
     if need_hermit:
-        is_hermit = A.is_hermitian and (M is None or M.is_hermitian)
+        # with complex shifts, A - E * M is not hermitian even if A and M are
+        is_hermit = A.is_hermitian and (M is None or M.is_hermitian) and \
+            (E is None or not torch.is_complex(E))
         if not is_hermit:
             # set posdef to False to make the operator becomes AT * A so it is
             # hermitian
